@@ -63,6 +63,14 @@ def families(tier, rng):
             fam.append(("userrace", [["connect", 1], ["connect", 2], ["send", 2, "USER u1"], ["send", 2, "PASS pw1"], ["nq", ["send", 1, "USER u2"]],
                                      ["iter", a], ["nq", end], ["tick", 0], ["send", 2, "QUIT"], ["connect", 3], ["send", 3, "USER u2"],
                                      ["connect", 4], ["send", 4, "USER u1"], ["send", 4, "PASS pw1"], ["srvclose"]]))
+    # a session whose teardown is slow (its transfer worker is held in a backend call) and server.close() during that teardown
+    for verb, op, data in (("STOR zz", "close", [1, 2]), ("STOR zz", "write", [1, 2, 3]), ("RETR f", "read", None), ("RETR f", "close", None)):
+        for end in (["vanish", 2], ["vanish", 2, "reset"], ["send", 2, "QUIT"]):
+            for a in (0, 1, 3):
+                st = [["connect", 1], ["connect", 2], ["send", 2, "USER u1"], ["send", 2, "PASS pw1"], ["send", 2, "PASV"], ["dconnect", 2],
+                      ["gate", 2, op, 1], ["send", 2, verb]] + ([["dsend", 2, data]] if data else []) + [end, ["iter", a], ["nq", ["srvclose"]], ["iter", 2],
+                      ["release", 2], ["tick", 0]]
+                fam.append(("closerace", st))
     return fam
 
 
